@@ -685,6 +685,10 @@ class CompilerPassGenerateCode(CompilerPass):
                     )
                 if can_assign_directly:
                     sym_data.name = value  # self.get_constant_name()
+                    if isinstance(value, (int, float)) and not sym_data.code_expr:
+                        # the spelling used where the name is read and constant propagation
+                        # did not reach (a function defined above the assignment of a global)
+                        sym_data.code_expr = int(value) if isinstance(value, bool) else value
                     # sym.name = value
                     # sym.is_constant = True
                     data.result = sym_data
